@@ -67,12 +67,101 @@ Definition lxOps : list (lop * Q) :=
 
 Example lx_replay :
   @replay_check Q NumQ (mk_mdp 3 2 lxP lxR lxAv lxAb lxIni 1) (1#100) (ordf lxOrd) (1#1000000000)
-                lxH lxOps [true; true; true] [-2; -2; 7] = all_true4.
+                lxH lxOps [true; true; true] [-2; -2; 7] [0%nat; 0%nat; 0%nat] = all_true5.
 Proof. vm_compute. reflexivity. Qed.
 
 (* labelling s0 right after its first update is refused by the guard (residual 1 > margin) *)
 Example lx_guard_refuses :
   @replay_check Q NumQ (mk_mdp 3 2 lxP lxR lxAv lxAb lxIni 1) (1#100) (ordf lxOrd) (1#1000000000)
                 lxH [(OUpd 0, -1); (OUpd 1, -2); (OAbs 2, 0); (OLabel [1%nat], 0); (OLabel [0%nat], 0)]
-                [true; true; true] [-1; -2; 7] = [false; false; false; false].
+                [true; true; true] [-1; -2; 7] [0%nat; 0%nat; 0%nat] = [false; false; false; false; false].
 Proof. vm_compute. reflexivity. Qed.
+
+(* ------------------------------------------------------------------ *)
+(* Refutation witness for "every ADMISSIBLE heuristic" when the greedy action of a labelled
+   state is RECOMPUTED from the final table (what _tear_down_plan_on does) instead of being the
+   action recorded at labelling time.  gamma = 1.
+   0=I1 -> s.   1=s: a0 -> G (-10) | a1 -> t (0).   2=p: a0 -> t (1/2) | t2 (1/2) ; a1 -> G (-15).
+   3=t -> 4=u -> 5=w (0), w -> G (-20), 6=t2 -> G (-100), 7=G absorbing.
+   V* = (-10,-10,-15,-20,-20,-20,-100,0).  h = (-10,-10,-6,-12,-5,-3,0,0) >= V*, but
+   (T h)(t) = h(u) = -5 > h(t) = -12: admissible, not monotone.
+   Log (a real trial history of msdm's LRTDP, seeds 3 and 9 of harness repro): s is labelled with a0;
+   a later trial raises V[t] to -5 and a failed _check_solved leaves it there; p ends on a1.
+   Final table: Q(s,a1) = -5 > Q(s,a0) = -10 = V[s]: the recomputed greedy action of the labelled
+   state s is a1, its residual is 5 > margin, its successor t is not labelled, and following it
+   from I1 returns -20 instead of -10. *)
+Definition nmP : list (list (list Q)) :=
+  [ [[0;1;0;0;0;0;0;0]; [0;0;0;0;0;0;0;0]];
+    [[0;0;0;0;0;0;0;1]; [0;0;0;1;0;0;0;0]];
+    [[0;0;0;1#2;0;0;1#2;0]; [0;0;0;0;0;0;0;1]];
+    [[0;0;0;0;1;0;0;0]; [0;0;0;0;0;0;0;0]];
+    [[0;0;0;0;0;1;0;0]; [0;0;0;0;0;0;0;0]];
+    [[0;0;0;0;0;0;0;1]; [0;0;0;0;0;0;0;0]];
+    [[0;0;0;0;0;0;0;1]; [0;0;0;0;0;0;0;0]];
+    [[0;0;0;0;0;0;0;1]; [0;0;0;0;0;0;0;0]] ].
+Definition nmR : list (list (list Q)) :=
+  [ [[0;0;0;0;0;0;0;0]; [0;0;0;0;0;0;0;0]];
+    [[0;0;0;0;0;0;0;-10]; [0;0;0;0;0;0;0;0]];
+    [[0;0;0;0;0;0;0;0]; [0;0;0;0;0;0;0;-15]];
+    [[0;0;0;0;0;0;0;0]; [0;0;0;0;0;0;0;0]];
+    [[0;0;0;0;0;0;0;0]; [0;0;0;0;0;0;0;0]];
+    [[0;0;0;0;0;0;0;-20]; [0;0;0;0;0;0;0;0]];
+    [[0;0;0;0;0;0;0;-100]; [0;0;0;0;0;0;0;0]];
+    [[0;0;0;0;0;0;0;0]; [0;0;0;0;0;0;0;0]] ].
+Definition nmAv := [[true;false];[true;true];[true;true];[true;false];[true;false];[true;false];[true;false];[true;false]].
+Definition nmAb := [false;false;false;false;false;false;false;true].
+Definition nmIni : list Q := [1#2; 0; 1#2; 0; 0; 0; 0; 0].
+Definition nmM : mdp Q := mk_mdp 8 2 nmP nmR nmAv nmAb nmIni 1.
+Definition nmH : list Q := [-10; -10; -6; -12; -5; -3; 0; 0].
+Definition nmVs : list Q := [-10; -10; -15; -20; -20; -20; -100; 0].
+Definition nmW : list Q := [5; 4; 3; 3; 2; 1; 1; 0].
+Definition nmOrd : list (list nat) := [[0];[0;1];[0;1];[0];[0];[0];[0];[0]]%nat.
+Definition nmOps : list lop :=
+  [ OUpd 0; OUpd 1; OAbs 7; OLabel [1%nat]; OLabel [0%nat];              (* trial from I1 *)
+    OUpd 2; OUpd 3; OUpd 4; OUpd 5; OLabel [5%nat]; OUpd 4;             (* trial p -> t -> u -> w; check u fails *)
+    OUpd 2; OUpd 6; OLabel [6%nat]; OUpd 2;                             (* trial p -> t2; check p fails *)
+    OUpd 2; OLabel [2%nat] ].                                           (* trial p -> G; p labelled *)
+
+Definition nm_witness : bool :=
+  @lr_wfb Q NumQ nmM &&
+  @c_vstar Q NumQ nmM (mk_cert [] [] nmVs nmW) && @c_w Q NumQ nmM (mk_cert [] [] nmVs nmW) &&   (* nmVs IS the optimum; MDP proper *)
+  forallbn 8 (fun s => Qle_bool (untab nmVs s) (untab nmH s)) &&                                  (* h admissible *)
+  match @run Q NumQ nmM (1#100) (ordf nmOrd) (init_state nmM nmH) nmOps with
+  | None => false
+  | Some st =>
+    forallbn 8 (fun s => if Qle_bool (untab nmIni s) 0 then true else sSol st s) &&   (* all initial states labelled *)
+    sSol st 1 && (sAct st 1 =? 0)%nat &&                                            (* s labelled with a0 *)
+    match @greedy Q NumQ nmM (ordf nmOrd) (sV st) 1 with
+    | Some a => (a =? 1)%nat                                                         (* recomputed: a1 *)
+    | None => false end &&
+    @nltb Q NumQ (1#100) (@nabs Q NumQ (@nsub Q NumQ (sV st 1) (@Qlr Q NumQ nmM (sV st) 1 1))) &&  (* its residual > margin *)
+    negb (sSol st 3) &&                                                              (* its successor t is not labelled *)
+    Qle_bool (@Qlr Q NumQ nmM (untab nmVs) 1 1) (-20)                                 (* and it is worth -20, optimum -10 *)
+  end.
+
+Example nm_refutes : nm_witness = true.
+Proof. vm_compute. reflexivity. Qed.
+
+Lemma nm_refutes_ex :
+  @lr_wfb Q NumQ nmM = true /\
+  @c_vstar Q NumQ nmM (mk_cert [] [] nmVs nmW) = true /\ @c_w Q NumQ nmM (mk_cert [] [] nmVs nmW) = true /\
+  forallbn 8 (fun s => Qle_bool (untab nmVs s) (untab nmH s)) = true /\
+  exists st : @lst Q,
+    @run Q NumQ nmM (1#100) (ordf nmOrd) (init_state nmM nmH) nmOps = Some st /\
+    forallbn 8 (fun s => if Qle_bool (untab nmIni s) 0 then true else sSol st s) = true /\
+    sSol st 1 = true /\ sAct st 1 = 0%nat /\
+    @greedy Q NumQ nmM (ordf nmOrd) (sV st) 1 = Some 1%nat /\
+    @nltb Q NumQ (1#100) (@nabs Q NumQ (@nsub Q NumQ (sV st 1) (@Qlr Q NumQ nmM (sV st) 1 1))) = true /\
+    sSol st 3 = false /\
+    Qle_bool (@Qlr Q NumQ nmM (untab nmVs) 1 1) (-20) = true.
+Proof.
+  pose proof nm_refutes as H. unfold nm_witness in H.
+  destruct (@run Q NumQ nmM (1#100) (ordf nmOrd) (init_state nmM nmH) nmOps) as [st|] eqn:E.
+  - rewrite !andb_true_iff in H. destruct H as [[[[H1 H2] H3] H4] H].
+    repeat split; auto. exists st. split; [reflexivity|].
+    destruct H as [[[[[[G1 G2] G3] G4] G5] G6] G7].
+    destruct (@greedy Q NumQ nmM (ordf nmOrd) (sV st) 1) as [a|]; [|discriminate].
+    apply Nat.eqb_eq in G3, G4. subst a. apply negb_true_iff in G6.
+    repeat split; auto.
+  - rewrite andb_false_r in H. discriminate.
+Qed.
